@@ -10,6 +10,7 @@ mod fw;
 mod gen;
 mod oracle;
 mod props;
+mod userlang;
 
 use fw::{RunArgs, Tier};
 
